@@ -19,6 +19,10 @@ THEOREMS = [
     "VK.applyTransfers_full",
     "VK.stvStep_linked",
     "VK.C02_legal_step",
+    "VK.kernel_threshold_droop",
+    "VK.kernel_threshold_hare",
+    "VK.kernel_transfer_value",
+    "VK.kernel_transfer_value_used",
 ]
 RULE = ("cases = rule in {STV, IRV, SequentialRCV} x profile of untied ranked ballots (2-6 candidates, partial ballots, "
         "zero-vote candidates, unit/int/rational weights) x m x quota x simultaneous x tiebreak x transfer in "
